@@ -84,7 +84,7 @@ def make_function(i, shape, name, prefix, local_types, rot):
         used.add(nm)
         tn = rot.next("arg" + tag, allt)
         # every few arguments: `required`, or a declared default value (scalars)
-        req = rot.next("argreq", ["default", "default", "default", "required", "default", "default", "default"])
+        req = rot.next("argreq", ["default", "default", "optional", "required", "default", "default", "default"])
         dv = None
         if tn in ARG_DEFAULTS and rot.next("argdef", [0, 0, 1, 0, 1]):
             dv = ARG_DEFAULTS[tn]
@@ -101,7 +101,9 @@ def make_function(i, shape, name, prefix, local_types, rot):
             while nm in used:
                 nm += "x"
             used.add(nm)
-            throws.append(F(tids[j], "default", {"n": excs[j]}, nm))
+            # requiredness keywords inside throws lists must not matter: the exception fields of <fn>_result are optional
+            throws.append(F(tids[j], rot.next("thrreq", ["default", "required", "optional", "default", "required"]),
+                            {"n": excs[j]}, nm))
     return {"name": name, "oneway": kind == "oneway", "ret": ret, "args": args, "throws": throws}
 
 
@@ -150,7 +152,12 @@ def main_program(shapes):
         {"k": "exception", "name": "X1b", "fields": [F(1, "optional", T("In"), "inner")]},
         {"k": "service", "name": "Root", "extends": None, "functions": fns("Root", "", None, False)},
     ]
-    b_defs = [{"k": "service", "name": "Base", "extends": "c.Root", "functions": fns("Base", "c.", None, False)}]
+    i32, st = T("i32"), T("string")
+    b_defs = [{"k": "service", "name": "Base", "extends": "c.Root", "functions": fns("Base", "c.", None, False)},
+              # `Shared` exists twice: here and, unrelated, in the main file; Ext extends THIS one (written b.Shared)
+              {"k": "service", "name": "Shared", "extends": None, "functions": [
+                  {"name": "shared_inc", "oneway": False, "ret": i32, "args": [F(1, "default", i32, "x")],
+                   "throws": [F(1, "required", {"n": "c.X1"}, "e")]}]}]
     loc = ["Loc"]
     a_defs = [
         {"k": "struct", "name": "Loc", "fields": [F(1, "default", T("i64"), "n"), F(2, "optional", T("list", T("string")), "tags"),
@@ -166,6 +173,13 @@ def main_program(shapes):
              "throws": [F(1, "default", {"n": "c.X1"}, "Success")]},
         ]},
         {"k": "service", "name": "Svc", "extends": "b.Base", "functions": fns("Svc", "c.", loc, True)},
+        {"k": "service", "name": "Shared", "extends": None, "functions": [
+            {"name": "shared_loc", "oneway": False, "ret": st, "args": [F(1, "default", st, "s")], "throws": None}]},
+        {"k": "service", "name": "Ext", "extends": "b.Shared", "functions": [
+            {"name": "ext_get", "oneway": False, "ret": st, "args": [F(1, "default", st, "key")],
+             "throws": [F(1, "required", T("X2"), "nf")]},
+            {"name": "ext_put", "oneway": False, "ret": None, "args": [F(1, "optional", i32, "n"), F(2, "required", st, "v")],
+             "throws": [F(1, "optional", T("X2"), "e"), F(2, "required", {"n": "c.X1"}, "r")]}]},
     ]
     return {"files": [
         {"path": "a.thrift", "includes": ["inc/b.thrift", "inc/deep/c.thrift"], "namespaces": [{"lang": "go", "name": "u"}],
@@ -232,13 +246,32 @@ def rpc_schema(prog):
     rs = schemalib.Resolver(prog)
     sc = rs.schema()
     svcs = []
-    for f, d in services_of(prog):
+    # a service is known by a unique key: its IDL name, or <name>_<file base> when several files declare that name
+    allsv = services_of(prog)
+    cnt = {}
+    for f, d in allsv:
+        cnt[d["name"]] = cnt.get(d["name"], 0) + 1
+    key = {}
+    for f, d in allsv:
+        fb = os.path.basename(f["path"])[:-7]
+        key[(f["path"], d["name"])] = d["name"] if cnt[d["name"]] == 1 else "%s_%s" % (d["name"], fb)
+    for f, d in allsv:
         base = None
         if d.get("extends"):
-            base = d["extends"].split(".")[-1]
+            ext = d["extends"]
+            if "." in ext:
+                pre, bn = ext.split(".", 1)
+                for inc in f.get("includes", []):
+                    if os.path.basename(inc)[:-7] == pre:
+                        base = key[(os.path.normpath(os.path.join(os.path.dirname(f["path"]), inc)), bn)]
+            else:
+                base = key[(f["path"], ext)]
+            if base is None:
+                raise ValueError("base service %s of %s not found" % (ext, d["name"]))
+        dkey = key[(f["path"], d["name"])]
         ms = []
         for fn in d["functions"]:
-            an = "%s.%s_args" % (d["name"], fn["name"])
+            an = "%s.%s_args" % (dkey, fn["name"])
             afields = []
             for a in fn.get("args") or []:
                 st = rs.stype(f["path"], a["type"])
@@ -257,7 +290,7 @@ def rpc_schema(prog):
             throws = []
             ret = rs.stype(f["path"], fn["ret"]) if fn.get("ret") is not None else None
             if not fn.get("oneway"):
-                rn = "%s.%s_result" % (d["name"], fn["name"])
+                rn = "%s.%s_result" % (dkey, fn["name"])
                 rfields = []
                 if ret is not None:
                     rfields.append({"id": 0, "req": "optional", "name": "success", "type": ret, "def": schemalib.NONE, "w": 0})
@@ -269,7 +302,7 @@ def rpc_schema(prog):
                 sc["structs"][rn] = {"kind": "struct", "fields": rfields}
             ms.append({"name": fn["name"], "oneway": bool(fn.get("oneway")), "void": ret is None, "args": an, "result": rn,
                        "argl": [{"name": x["name"], "type": x["type"]} for x in afields], "ret": ret, "throws": throws})
-        svcs.append({"name": d["name"], "file": f["path"], "base": base, "methods": ms})
+        svcs.append({"name": dkey, "idl": d["name"], "file": f["path"], "base": base, "methods": ms})
     return sc, svcs
 
 
@@ -435,6 +468,17 @@ class GoGen:
                                                 "outside the generated package" % (gn, ", ".join(unexp))))
                     return False
                 gosvc[s["name"]] = (ip, pf, gn, it)
+        for s in svcs:
+            ip, pf, gn, it = gosvc[s["name"]]
+            want = []
+            if s["base"]:
+                bip, _, bgn, _ = gosvc[s["base"]]
+                want = [(bip, bgn)]
+            got = [(pf["imports"].get(a, "?" + a) if a else ip, n) for a, n in it["embeds"]]
+            if got != want:
+                self.problems.append((c.id, "interface %s embeds %s but the IDL's base service is %s" % (
+                    gn, ["%s.%s" % g for g in got], ["%s.%s" % w for w in want])))
+                return False
         cid = c.id
         # handler types, one per defining service, embedding the base's handler
         for s in svcs:
